@@ -1,5 +1,6 @@
 (* C08 - the stored record mirrors the MLS state.  Statements only. *)
 From MDK Require Import Base.Prelude Base.AMap Mdk.Engine Mdk.EngineSpec Mdk.EngineProofs.
+From MDK Require Import Mdk.EngineProofs4 Mdk.EngineProofs5.
 
 Theorem C08_inv_init : forall i a r, Inv (init_client i a r).
 Proof. exact inv_init. Qed.
@@ -23,3 +24,13 @@ Theorem C08_record_mirrors_mls : forall i a r ds, let c := deliver_all (init_cli
   k_active (kc c) = true -> k_rec_epoch (kc c) = k_epoch (kc c).
 Proof. exact record_mirrors_mls. Qed.
 Print Assumptions C08_record_mirrors_mls.
+
+(* ---- a client that joins through a welcome starts with its record mirroring the MLS state, and keeps it along any run *)
+Theorem C08_inv_join : forall i a r cur ep d, Inv (join_client i a r cur ep d).
+Proof. exact inv_join. Qed.
+Print Assumptions C08_inv_join.
+
+Theorem C08_inv_join_run : forall i a r cur ep d ops,
+  Inv (erun (join_client i a r cur ep d) ops) /\ queue_wf (erun (join_client i a r cur ep d) ops).
+Proof. exact inv_join_erun. Qed.
+Print Assumptions C08_inv_join_run.
